@@ -37,13 +37,17 @@ class CComp(fm.TimeComponent):
         in_rules, out_rules = {}, {}
         for n, s in self.spec.get("inputs", {}).items():
             if s["info"] == "declared":
-                self.inputs.add(name=n, time=self.time, grid=fm.NoGrid(1), units=None)
+                st = bool(s.get("static"))
+                self.inputs.add(name=n, time=None if st else self.time, grid=fm.NoGrid(1), units=s.get("units"),
+                                static=st)
             else:
                 self.inputs.add(name=n, info=None)
                 in_rules[n] = [FromOutput(_slot_of(s["info"]))] + _value_rules(s["info"])
         for n, s in self.spec.get("outputs", {}).items():
             if s["info"].startswith("declared"):
-                self.outputs.add(name=n, time=self.time, grid=fm.NoGrid(1), units=_declared_units(s["info"]))
+                st = bool(s.get("static"))
+                self.outputs.add(name=n, time=None if st else self.time, grid=fm.NoGrid(1),
+                                 units=_declared_units(s["info"]), static=st)
             else:
                 self.outputs.add(name=n)
                 if s["info"].startswith("rule_in:"):
@@ -98,7 +102,8 @@ def _override_units(info):
 
 
 def _declared_units(info):
-    return info.split(":")[1] if ":" in info else "m"
+    u = info.split(":")[1] if ":" in info else "m"
+    return None if u == "None" else u  # "declared:None": units left to the consumer
 
 
 def resolve_units(spec):
@@ -114,13 +119,20 @@ def resolve_units(spec):
                 inf = s["info"]
                 if inf.startswith("declared"):
                     units[("O", cn, o)] = _declared_units(inf)
+                    if units[("O", cn, o)] is None:  # left unset: taken from the (first) consumer that states units
+                        for l in spec["links"]:
+                            if l[0] == cn and l[1] == o:
+                                cu = spec["comps"][l[2]]["inputs"][l[3]].get("units")
+                                if cu:
+                                    units[("O", cn, o)] = cu
+                                    break
                 else:
                     units[("O", cn, o)] = _override_units(inf) or units.get(("I", cn, _slot_of(inf)))
             for i, s in cs.get("inputs", {}).items():
                 inf = s["info"]
                 if inf == "declared":
                     so = src_of[(cn, i)]
-                    units[("I", cn, i)] = units.get(("O",) + so)
+                    units[("I", cn, i)] = s.get("units") or units.get(("O",) + so)
                 else:
                     units[("I", cn, i)] = _override_units(inf) or units.get(("O", cn, _slot_of(inf)))
     return units
@@ -262,6 +274,9 @@ def h_connect(ctx):
             ctx.check(all(v is not None for v in h.out_infos.values()), "out-info-missing")
             ctx.check(all(v is not None for v in h.in_data.values()), "initial-pull-missing")
             for o in c.outputs.values():
+                if o.is_static:
+                    ctx.check(len(o.data) == 1, "static-output-not-published-once", {"sig": n})
+                    continue
                 ts = [t for t, _ in o.data]
                 has_start = None
                 has_own = None
@@ -359,6 +374,10 @@ SCENARIOS = [
               "outputs": {"o": {"info": "declared", "deps": []}}},
         "Y": {"inputs": {"i": D()}}},
      "links": [("X", "o", "T", "i"), ("T", "o", "Y", "i")]},
+    {"name": "static_pair_units_from_consumer", "comps": {
+        "P": {"outputs": {"o": {"info": "declared:None", "deps": [], "static": True}}},
+        "C": {"inputs": {"i": {"info": "declared", "pull": True, "static": True, "units": "m"}}}},
+     "links": [("P", "o", "C", "i")]},
     {"name": "transfer_refined_data", "comps": {
         "A": {"outputs": {"o": {"info": "declared", "deps": []}}},
         "T": {"inputs": {"i": D()}, "outputs": {"o": {"info": "rule_in:i", "deps": [], "refine": True}}},
@@ -414,7 +433,7 @@ EXPLANATION = (
     "compared with the exchanged infos and the delivered data. The dependency shapes are a "
     "finite catalogue -- the solver's part is path feasibility, the orders, and the start-time arithmetic."
 )
-ASSUMPTIONS = ["catalogue of 17 dependency scenarios (incl. transfer rules followed by a value rule, in both directions) (incl. links branching behind a shared pass-through adapter and an adapter nobody reads from) (vf/props/c06.py SCENARIOS), up to 4 components"]
+ASSUMPTIONS = ["catalogue of 18 dependency scenarios (incl. a static output/input pair whose units come from the consumer) (incl. transfer rules followed by a value rule, in both directions) (incl. links branching behind a shared pass-through adapter and an adapter nobody reads from) (vf/props/c06.py SCENARIOS), up to 4 components"]
 
 
 def families(tier):
